@@ -73,7 +73,7 @@ Open Scope string_scope.
 Definition deflate_case_limited (seq : list stmtfact) : bool :=
   existsb (fun f => stmtkind_eqb (sfk f) SSwitch &&
      existsb (fun c => strs_eqb (fst c) ["urn:oasis:names:tc:SAML:2.0:bindings:URL-Encoding:DEFLATE"] &&
-                       strs_eqb (snd c) ["bytes.NewBuffer"; "flate.NewReader"; "io.LimitReader"; "io.ReadAll"; "r.Close"]) (cases f)) seq.
+                       strs_eqb (snd c) ["bytes.NewBuffer"; "flate.NewReader"; "io.LimitReader"; "io.ReadAll"; "r.Close"; "return:ok"]) (cases f)) seq.
 Close Scope string_scope.
 Lemma inflate_structure : deflate_case_limited inflateAndDecode_seq = true /\ (0 < ci_MaxInflatedSize <= 64 * 1024 * 1024)%Z.
 Proof. split; [vm_compute; reflexivity|unfold ci_MaxInflatedSize; lia]. Qed.
